@@ -1594,9 +1594,11 @@ def witness_case(op, kind, cat):
         if op == "fieldSerialize":
             return dict(base, op=op, imm="structure", only=["opt"], field="opt")
         return None
-    if kind in ("anyOf", "oneOf", "allOf") and cat == "untyped" and not (kind == "anyOf" and op in OUTPUT_FIELD_OPS):
+    if kind in ("anyOf", "oneOf", "allOf") and cat == "untyped" and \
+            not (op in OUTPUT_FIELD_OPS and delegated_option(kind, [ARR_INT, STR]) != "first"):
         # no option takes the value: input operations are given one (a dict), output operations find one put into
-        # the instance behind validation's back (for AnyOf.serialize the existing witness below is of that kind already)
+        # the instance behind validation's back (a wrapper whose `serialize` delegates to a FIXED option has the `misfit`
+        # sites instead)
         d = {"k": kind, "fields": [ARR_INT] if kind == "allOf" else [ARR_INT, STR]}
         cls = _cls(f"W_{kind}_nofit", [["f", d]])
         base = {"suite": "alias", "cls": cls, "witness": [op, kind, cat], "pokeLimit": 120}
